@@ -463,6 +463,11 @@ class TAP003(AbstractTAP, discriminator="tap-003"):
                 self.config.agent_settings.kill_chain.EXPLOIT.malicious_acls
             )
             self._num_acls = len(self.config.agent_settings.kill_chain.EXPLOIT.malicious_acls)
+            if self._num_acls == 0:
+                # `malicious_acls` defaults to an empty list: nothing to add, the stage is complete.
+                self.chosen_action = "do-nothing", {}
+                self._progress_kill_chain()
+                return
             malicious_acl = self.config.agent_settings.kill_chain.EXPLOIT.malicious_acls[self._current_acl]
             hostname = malicious_acl.target_router
 
